@@ -22,22 +22,23 @@ const Property = "C11"
 // works on its own by-value copy of the PoolAllocator. Repeat: how often the
 // whole schedule is run (fresh pool each time).
 type Case struct {
-	T       string `json:"t"`
-	C       int    `json:"c"`
-	L       int    `json:"l"`
-	K       int    `json:"k"`
-	G       int    `json:"g"`
-	M       int    `json:"m"`
-	Procs   int    `json:"procs"`
-	Yields  []int  `json:"yields"`
-	ByValue []bool `json:"byValue"`
-	GC      bool   `json:"gc"`
-	Warm    int    `json:"warm,omitempty"` // buffers obtained from the allocator (and put back) before the by-value copies are taken
-	Repeat  int    `json:"repeat"`
-	Hold    int    `json:"hold,omitempty"` // buffers each goroutine holds at the same time (0 = 1), released in get order or (Rev) newest first
-	Rev     bool   `json:"rev,omitempty"`
-	PutView bool   `json:"putView,omitempty"` // every cycle puts back a Slice(0,k) view of the buffer it got (k varies) instead of the buffer itself
-	Table   bool   `json:"table,omitempty"`   // holders also register every buffer in a shared ownership table (adds synchronisation, so only some cases use it)
+	T        string `json:"t"`
+	C        int    `json:"c"`
+	L        int    `json:"l"`
+	K        int    `json:"k"`
+	G        int    `json:"g"`
+	M        int    `json:"m"`
+	Procs    int    `json:"procs"`
+	Yields   []int  `json:"yields"`
+	ByValue  []bool `json:"byValue"`
+	GC       bool   `json:"gc"`
+	Warm     int    `json:"warm,omitempty"` // buffers obtained from the allocator (and put back) before the by-value copies are taken
+	Repeat   int    `json:"repeat"`
+	Hold     int    `json:"hold,omitempty"` // buffers each goroutine holds at the same time (0 = 1), released in get order or (Rev) newest first
+	Rev      bool   `json:"rev,omitempty"`
+	LateCopy bool   `json:"lateCopy,omitempty"` // by-value goroutines copy the allocator after the start, while others already use it, and again every few cycles
+	PutView  bool   `json:"putView,omitempty"`  // every cycle puts back a Slice(0,k) view of the buffer it got (k varies) instead of the buffer itself
+	Table    bool   `json:"table,omitempty"`    // holders also register every buffer in a shared ownership table (adds synchronisation, so only some cases use it)
 }
 
 var Types = []string{"int8", "uint16", "int32", "float32", "float64", "uint64", "NInt16", "NFloat32"}
@@ -81,6 +82,9 @@ func Check(c *Case) (res kit.Result) {
 	}
 	if c.Table {
 		res.Class("ownershipTable")
+	}
+	if c.LateCopy {
+		res.Class("allocatorCopiedWhileInUse")
 	}
 	if c.PutView {
 		res.Class("viewsPutBack")
@@ -158,6 +162,9 @@ func runOnce(c *Case) (string, int64) {
 				}
 			}()
 			<-start
+			if c.LateCopy && c.ByValue[g] {
+				p = pool.Copy()
+			}
 			y := c.Yields[g]
 			seen := map[uintptr]bool{} // by address only: the map must not keep put-back buffers reachable
 			hold := c.Hold
@@ -169,6 +176,9 @@ func runOnce(c *Case) (string, int64) {
 			stamps := make([]kit.Val, 0, hold)
 			for cycle := 0; cycle < c.M; cycle++ {
 				bufs, fulls, stamps = bufs[:0], fulls[:0], stamps[:0]
+				if c.LateCopy && c.ByValue[g] && cycle%4 == 3 {
+					p = pool.Copy()
+				}
 				for hi := 0; hi < hold; hi++ {
 					b := p.Get()
 					if c.Table {
@@ -257,7 +267,7 @@ func FP(c *Case) uint64 {
 		gc = 1
 	}
 	h.Ints([]int{c.C, c.L, c.K, c.G, c.M, c.Procs, gc, c.Repeat, c.Warm, c.Hold})
-	h.Str(fmt.Sprint(c.Rev, c.Table, c.PutView))
+	h.Str(fmt.Sprint(c.Rev, c.Table, c.PutView, c.LateCopy))
 	h.Ints(c.Yields)
 	for _, b := range c.ByValue {
 		if b {
@@ -285,6 +295,7 @@ func Gen(t *rapid.T) *Case {
 	c.Hold = rapid.SampledFrom([]int{1, 1, 2, 2, 3, 4}).Draw(t, "hold")
 	c.Rev = rapid.Bool().Draw(t, "rev")
 	c.PutView = rapid.IntRange(0, 2).Draw(t, "putView") == 0
+	c.LateCopy = rapid.Bool().Draw(t, "lateCopy")
 	hammer := c.K <= 64 && rapid.IntRange(0, 3).Draw(t, "hammer") == 0
 	if hammer { // tiny buffers, thousands of cycles: contention on the pool itself
 		c.C = rapid.IntRange(1, 2).Draw(t, "cHammer")
